@@ -12,6 +12,8 @@ R18.4 (effects) one MultiFrameData per frame with its own counter (instance fiel
 R18.5 defining_origin / channels / frames / origins derive from the logical file's own registry.
 R18.6 data set names are unique across all channels of the logical file (not only within one channel set), so inline
       data of one frame cannot overwrite another's.
+R18.8 the arguments of the per-frame data factory are free of values carried from one round of the loop over the
+      logical files into the next (re-bound locals): one file's inline data cannot reach another file's frames.
 R18.7 = C07 R07.3: every reference (all reference-typed attributes, the no-format objects) is checked, on the write path,
       to point into the same logical file.
 """
@@ -49,6 +51,31 @@ def run(chk):
     chk.guard(r18_2_shared_registry_use, chk)
     chk.guard(r18_3_ownership, chk)
     chk.guard(r18_4_5_6, chk)
+    chk.guard(r18_8_no_carry_over, chk)
+
+
+def r18_8_no_carry_over(chk):
+    """What the frames of one logical file are given for a write does not depend on the logical files handled before
+    it: in the function that builds the frame data of all logical files, the arguments of the per-frame factory are
+    free of loop-carried values (a variable re-bound inside the loop over the logical files carries one file's data
+    into the next)."""
+    from ..terms import subterms, pp
+    from ._layout import frame_data_plan
+    plan = frame_data_plan(chk)
+    ix = chk.ix
+    gen = ix.get_method("DLISFile", "generate_logical_records")
+    if gen is None:
+        raise AnalysisError("DLISFile.generate_logical_records not found")
+    chk.consult(gen)
+    gs = chk.terms.inline(gen, 2, stop=lambda h: h.cls is not gen.cls or h.name == "__init__")
+    calls = [c for c, tg in gs.calls.items() if plan.func in tg and c in gs.precise]
+    chk.floor("calls of the per-frame data factory", len(calls), 1)
+    for c in calls:
+        carried = [x for a in list(c[2]) + [v for _, v in c[3]] for x in subterms(a) if x[0] in ("mu", "fold")]
+        chk.require(not carried, "R18.8", "factory-arguments-not-loop-carried",
+                    f"the per-frame data factory is called with a value carried over from the logical files handled "
+                    f"before ({sorted({x[2] if x[0] == 'mu' else x[2] for x in carried})}): one logical file's data "
+                    f"reach the next one's frames", f"{gen.module.relpath}:{gen.node.lineno}")
 
 
 def r18_1(chk):
